@@ -10,6 +10,7 @@ import (
 	"errors"
 	"fmt"
 	"io"
+	"reflect"
 	"testing"
 	"time"
 
@@ -560,5 +561,24 @@ func TestF30DeterministicTiedNames(t *testing.T) {
 	}
 	if len(seen) != 1 {
 		t.Errorf("Deterministic(true) produced %d different outputs for equal maps", len(seen))
+	}
+}
+
+// F7 / F10: `string` option quirks of v1 against classic encoding/json (both repaired).
+func TestF7F10QuotedNullAndPlusUnderStringOption(t *testing.T) {
+	type S struct {
+		P *[]int       `json:",string"`
+		Q *map[int]int `json:",string"`
+		N int          `json:",string"`
+		I *int         `json:",string"`
+	}
+	for _, in := range []string{`{"P":"null"}`, `{"Q":"null"}`, `{"I":"null"}`, `{"N":"+1"}`, `{"N":"1"}`, `{"I":"+7"}`, `{"N":"-0"}`} {
+		mk := func() *S { i := 5; return &S{P: &[]int{1}, Q: &map[int]int{1: 1}, I: &i, N: 3} }
+		a, b := mk(), mk()
+		e1 := stdjson.Unmarshal([]byte(in), a)
+		e2 := jsonv1.Unmarshal([]byte(in), b)
+		if (e1 == nil) != (e2 == nil) || (e1 == nil && !reflect.DeepEqual(a, b)) {
+			t.Errorf("%s: classic %+v %v, v1 %+v %v", in, a, e1, b, e2)
+		}
 	}
 }
